@@ -280,9 +280,11 @@ ADDENDA = {
     "C03": " Also: a test that skips the range check on unpack is evaluated for every small modulus; declarations are enforced "
            "at every call (memoryless rule).",
     "C04": " Calls unknown to the value homomorphism are uninterpreted function symbols, so a closed-form value next to a "
-           "differently built wire is a violation.",
+           "differently built wire is a violation.  A construction that follows an accumulating loop is decided by induction "
+           "over the loop (flag states, constant propagation per state, the claim as invariant).",
     "C05": " Also: check_zero/check_positive hint Python's truth value over the integers; `~` never meets a plain int; mixed "
-           "integer / fixed-point comparisons happen at one scale; selection returns the chosen alternative.",
+           "integer / fixed-point comparisons happen at one scale; selection returns the chosen alternative; no operator writes "
+           ".value/.lc of an object that may be one of its operands (flow-sensitive may-alias analysis).",
     "C07": " Also: emission is memoryless; a raise inside the guarded arm of add_constraint implies the unguarded arm's raise "
            "condition.",
     "C08": " Also: nothing computed from the guard outlives the region (memoryless rule); add_guard is the last fallible step "
@@ -290,7 +292,8 @@ ADDENDA = {
     "C09": " Also: the guard kernel of runtime.py splits on 'a guard is installed', never on its value; constraints emitted in "
            "a branch not taken are satisfied (shared with C07); the merge multiplexer selects exactly (shared with C02).",
     "C10": " Also: the snarkjs linear-combination algebra (shared with C13, incl. exact cancellation) and no table keyed by "
-           "hash(value); prove() is interpreted interprocedurally (helper writers, writer factories).",
+           "hash(value); prove() is interpreted interprocedurally (helper writers, writer factories, in-memory section buffers, "
+           "to_bytes, concatenated loops); a section list that depends on the data is a violation.",
     "C11": " Also: the zkinterface linear-combination algebra (shared with C13) and no table keyed by hash(value).",
     "C12": " Also: the whole equation line passes one context-consistency check; a block lists exactly the members it is given, "
            "in order; no table keyed by hash(value).",
@@ -298,14 +301,17 @@ ADDENDA = {
     "C14": " Also: `/` is never applied to a representation (exact division is not a floor); the integer-secret class rejects "
            "or defers fixed-point operands (the strict-comparison defect named in the property was found by this rule and "
            "repaired).",
-    "C15": " Also: the per-position multiplexer if_then_else selects exactly (shared with C02).",
-    "C16": " Also: the evaluated skip predicate of the unpack range check (shared with C03).",
+    "C15": " Also: the per-position multiplexer if_then_else selects exactly (shared with C02); selector, read and write are "
+           "stated over symbolic sequences (any spelling of the iteration); Array(x) stores a list of its own.",
+    "C16": " Also: the evaluated skip predicate of the unpack range check (shared with C03); the checks dominating the bit "
+           "construction of to_bits imply 0 <= v < 2^n (interval reasoning).",
     "C18": " Also: under autoprove the exit callback runs backend.prove() exactly once and under no other condition.",
     "C19": " Stage rules are stated on the outcomes of a symbolic execution of the selection code over an abstract registry "
            "row (pairing of name and module on every outcome, no second assignment of backend, decision order, loud failure "
-           "of a named backend, report of an unknown name before auto-detection); star imports honour __all__.",
+           "of a named backend, report of an unknown name before auto-detection); the environment is matched against a row only "
+           "after a complete scan of the table for pre-imported modules; star imports honour __all__.",
     "C20": " Also: sponge construction (block added to the rate part, capacity element carried over, one permutation per "
-           "block) and pure rejection sampling of the subset-sum coefficients.",
+           "block, state not kept in a class attribute) and pure rejection sampling of the subset-sum coefficients.",
 }
 for _k, _v in ADDENDA.items():
     if _k in CLAIMS:
